@@ -84,7 +84,7 @@ func c10cClassify(fn, msg string, f c10cFacts) string {
 		return "llama3-rope-head-dim"
 	case has(fn, "convert.parseAdditionalSpecialTokens") && has(msg, "interface conversion"):
 		return "special-tokens-map-type"
-	case has(fn, "convert.parseSentencePiece") && has(msg, "index out of range"):
+	case has(fn, "convert.parseSentencePiece") && has(msg, "index out of range [-"):
 		return "added-tokens-negative-id"
 	case has(fn, "Model).KV") && has(msg, "unknown rope scaling type"):
 		return "rope-scaling-type-panic"
@@ -290,6 +290,9 @@ func c10cRun(e *c10Env, c c10hf.Case, known func(string) bool, excluded func(str
 	}
 	if !d.Changed {
 		add("hf:unmutated")
+		if c.Adapter == nil {
+			add("hf:unmutated_model")
+		}
 	}
 	info.nontrivial = d.Changed
 
@@ -374,7 +377,11 @@ func c10cRun(e *c10Env, c c10hf.Case, known func(string) bool, excluded func(str
 		}
 		if c.Adapter.ViaFrom {
 			add("hf:adapter:from")
-			r, err := request("create base", http.MethodPost, "/api/create", c10JSON(map[string]any{"model": "c10base", "files": baseFiles, "stream": &f}))
+			breq := map[string]any{"model": "c10base", "files": baseFiles, "stream": &f}
+			if c.Adapter.Rank%2 == 0 { // a base with a layer that is not a model file
+				breq["system"] = "You are the base model."
+			}
+			r, err := request("create base", http.MethodPost, "/api/create", c10JSON(breq))
 			if err != nil {
 				return abandon(err)
 			}
